@@ -307,7 +307,8 @@ def _check_doc(ctx, c, reqs, pending):
     if len(doc.content) != 1 or canon(doc.content[0]) != before:
         ctx.fail(case, 'document .content differs from the tree it was given', site='sr.content')
     root_ds = pydicom.Dataset()
-    for kw in ('ValueType', 'ConceptNameCodeSequence', 'ContinuityOfContent', 'ContentTemplateSequence', 'ContentSequence'):
+    for kw in ('ValueType', 'ConceptNameCodeSequence', 'ContinuityOfContent', 'ContentTemplateSequence', 'ContentSequence',
+               'ObservationDateTime', 'ObservationUID'):
         if kw in doc:
             root_ds[kw] = doc[kw]
     if canon(root_ds) != before:
